@@ -299,14 +299,17 @@ func runC19(r *Run, stratum string) *Violation {
 				missing := expected[mi]
 				sig := "per-key order broken: a command took effect before its predecessor on the same key"
 				// pipelined sending: the predecessor may still be queued at the node a stale slot map routed it to (its
-				// MOVED answer comes later) while the next batch, routed by the refreshed map, already executes
+				// MOVED answer comes later) while the next batch, routed by the refreshed map, already executes; the blocking
+				// sender has the same window inside ONE batch: its commands are put into per-node sub-batches one by one,
+				// a slot map refreshed in between (an earlier MOVED of the batch before) sends a later command of the key
+				// to the new owner while the earlier one waits at the old one (thorough soak, 1 of 251998 runs)
 				// only keys of a slot that has been under migration are affected: a key whose slot never moved has one
 				// node, one ordered per-node pipeline, and no redirect to be overtaken at
 				kind, red := redirected[mi]
 				if redirectedInc[mi] == incarnation {
 					kind = firstKind[mi]
 				}
-				if !stable && !refusal(kind) && retriedInPlace[k] != incarnation && (red || followedBehind[k] == incarnation || (cfg.Pipeline && migratedSlots[simredis.HashSlot([]byte(k))])) {
+				if !stable && !refusal(kind) && retriedInPlace[k] != incarnation && (red || followedBehind[k] == incarnation || migratedSlots[simredis.HashSlot([]byte(k))]) {
 					sig = "cluster target during slot migration: a redirected or stale-routed command was overtaken by a later, already pipelined command of the same key"
 				}
 				msg := fmt.Sprintf("key %q: [%s] executed (node %d) while its predecessor [%s] has not been executed since the last rewind (redirect seen for it: %q)", k, fmtCmd(e.Name, e.Args), e.Node, fmtCmd(missing.Name, missing.Args), redirected[mi])
